@@ -135,7 +135,7 @@ pub fn run(seed: u64, iters: usize, sched: &str, dir: &str) -> (i32, Value) {
         "scenario": "c07shuttle", "property": "C07", "seed": seed.to_string(), "scheduler": sched,
         "evaluations": EXECS.load(Ordering::Relaxed), "distinct_nontrivial": sigs.len(), "distinct": sigs.len(),
         "rule": "one execution = 2-4 tasks racing first calls under a seeded shuttle schedule; distinct/non-trivial = distinct interleaving signatures (sequence of (task, sim-point kind) pairs), each containing at least one dispatch-cell initialisation",
-        "counters": {"probe.dispatch_inits": INITS.load(Ordering::Relaxed), "sim_points": POINTS.load(Ordering::Relaxed),
+        "counters": {"probe.dispatch_inits": INITS.load(Ordering::Relaxed), "fault.context_switch_at_sim_point": POINTS.load(Ordering::Relaxed),
                      "probe.init_won_by_task0": wins[0], "probe.init_won_by_task1": wins[1], "probe.init_won_by_task2": wins[2], "probe.init_won_by_task3": wins[3]},
         "samples": [LAST.lock().unwrap_or_else(|e| e.into_inner()).clone()],
         "violation_count": 0, "violations": [], "wall_s": t0.elapsed().as_secs_f64(),
